@@ -153,8 +153,7 @@ def copy(from_torrent, to_torrent):
     `to_torrent`
     """
     source_info = from_torrent.metainfo['info']
-    to_torrent.metainfo['info']['pieces'] = source_info['pieces']
-    to_torrent.metainfo['info']['piece length'] = source_info['piece length']
+    source_files = None
     if 'files' in from_torrent.metainfo['info']:
         # Confirm both file lists are identical while ignoring order
         def make_sortable(files):
@@ -166,9 +165,13 @@ def copy(from_torrent, to_torrent):
             for file in source_info['files']
         ]
 
+        # Do this before `to_torrent` is changed
         assert sorted(make_sortable(to_torrent.metainfo['info']['files'])) \
             == sorted(make_sortable(source_files))
 
+    to_torrent.metainfo['info']['pieces'] = source_info['pieces']
+    to_torrent.metainfo['info']['piece length'] = source_info['piece length']
+    if source_files is not None:
         # Copy file order from `source_info`
         to_torrent.metainfo['info']['files'] = source_files
 
